@@ -192,6 +192,14 @@ def run(prop, tier, replay):
                 rep.violation(key, {"stdlib": True, "function": name, "literals": c["lits"], "source": c["src"], "outcome": c["res"]},
                               f"standard function {name}({', '.join(c['lits'])[:120]}) in an accepted program: {c['res']}")
     feat_rows = []
+    if prop == "C02" and not replay:
+        # feature programs that carry their own oracle (`selfcheck`): only that verdict is C02's
+        fp = work / "features.ndjson"
+        tpv(["stfeat", "--seed", s, "--runs", 780 if tier == "quick" else 26000, "--out", fp], timeout=3000)
+        for r in read_ndjson(fp):
+            if r["a"] == "Feature" and r["accepted"] and r["res"] == "SelfCheckFailed":
+                rep.violation(f"feature:selfcheck:{r['family']}", {"feature": True, "family": r["family"], "k": r["k"], "seed": s, "source": r.get("src", "")},
+                              f"feature program #{r['k']} ({r['family']}): the value computed through the feature differs from the same value computed without it")
     if prop == "C01" and not replay:
         # feature programs: language features outside the random generators' grammar, outcome contract only
         fp = work / "features.ndjson"
@@ -205,6 +213,8 @@ def run(prop, tier, replay):
                 continue
             if r["res"] in ("Panic", "Abort", "Hang", "PanicInCompiler"):
                 key = f"feature:{r['res'].lower()}:{r['family']}"
+            elif r["res"] == "SelfCheckFailed":
+                continue    # a value question: C02's
             elif r["res"] != "ok" and r["res"] not in VALUE_FAULTS:
                 key = f"feature:static-error:{r['res']}:{r['family']}"
             elif r["frames"] != 0:
